@@ -393,4 +393,506 @@ theorem pullFrom_sound (src : Src) : ∀ (fuel : Nat) (sts : List StageSt) (pos 
           simp only [denoteF_cons, hB1 n hn hn']
           exact drive_nil_more ho he hs
 
+/-! ### requests for `k` items -/
+
+@[simp] theorem answers_nil_more (k : Nat) : (Tr.mk [] .more).answers (k + 1) = false := by
+  simp [Tr.answers, Term.isMore]
+
+@[simp] theorem answers_cons (v : V) (d : Tr) (k : Nat) : (d.cons v).answers (k + 1) = d.answers k := by
+  simp [Tr.answers, Tr.cons]
+
+theorem cons_prepend (v : V) (ys : List V) (d : Tr) : (d.prepend ys).cons v = d.prepend (v :: ys) := rfl
+
+theorem takeK_sound (src : Src) (fuel : Nat) : ∀ (k : Nat) (sts : List StageSt) (pos : Nat) (acc : List V),
+    pos ≤ (takeK src fuel k sts pos acc).1.pulls ∧
+    (∀ n, pos ≤ n → n < (takeK src fuel k sts pos acc).1.pulls → (denoteF src sts pos n).answers k = false) ∧
+    ∃ ys, (takeK src fuel k sts pos acc).1.items = acc ++ ys ∧
+      ∀ N, (takeK src fuel k sts pos acc).1.pulls ≤ N →
+        match (takeK src fuel k sts pos acc).1.fin with
+        | .gotK => ys.length = k ∧ denoteF src sts pos N =
+            (denoteF src (takeK src fuel k sts pos acc).2 (takeK src fuel k sts pos acc).1.pulls N).prepend ys
+        | .exhausted => ys.length < k ∧ denoteF src sts pos N = ⟨ys, .eof⟩
+        | .raised e => ys.length < k ∧ denoteF src sts pos N = ⟨ys, .err e⟩
+        | .oof => True := by
+  intro k
+  induction k with
+  | zero =>
+    intro sts pos acc
+    simp only [takeK]
+    exact ⟨Nat.le_refl _, fun n hn hn' => by omega, [], by simp, fun N _ => by simp⟩
+  | succ k ih =>
+    intro sts pos acc
+    simp only [takeK]
+    have hs := pullFrom_sound src fuel sts pos
+    rcases h1 : pullFrom src fuel sts pos with ⟨r, sts1, p1⟩
+    rw [h1] at hs
+    obtain ⟨hle, hB, hA⟩ := hs
+    cases r with
+    | item v =>
+      simp only
+      obtain ⟨hle2, hB2, ys, hys, hA2⟩ := ih sts1 p1 (acc ++ [v])
+      refine ⟨Nat.le_trans hle hle2, ?_, v :: ys, by simp [hys], ?_⟩
+      · intro n hn hn'
+        rcases Nat.lt_or_ge n p1 with hlt | hge
+        · rw [hB n hn hlt]; simp
+        · have := hA n hge
+          simp only at this
+          rw [this, answers_cons]
+          exact hB2 n hge hn'
+      · intro N hN
+        have hN1 : p1 ≤ N := Nat.le_trans hle2 hN
+        have h0 := hA N hN1
+        simp only at h0
+        have h2 := hA2 N hN
+        revert h2
+        cases (takeK src fuel k sts1 p1 (acc ++ [v])).1.fin with
+        | gotK => intro h2; exact ⟨by simp [h2.1], by rw [h0, h2.2]; rfl⟩
+        | exhausted => intro h2; exact ⟨by simp; omega, by rw [h0, h2.2]; rfl⟩
+        | raised e => intro h2; exact ⟨by simp; omega, by rw [h0, h2.2]; rfl⟩
+        | oof => intro _; trivial
+    | eof =>
+      simp only
+      refine ⟨hle, fun n hn hn' => by rw [hB n hn hn']; simp, [], by simp, fun N hN => ?_⟩
+      exact ⟨by simp, hA N hN⟩
+    | err e =>
+      simp only
+      refine ⟨hle, fun n hn hn' => by rw [hB n hn hn']; simp, [], by simp, fun N hN => ?_⟩
+      exact ⟨by simp, hA N hN⟩
+    | oof =>
+      simp only
+      exact ⟨hle, fun n hn hn' => by rw [hB n hn hn']; simp, [], by simp, fun N hN => trivial⟩
+
+/-! ### `glomit` -/
+
+theorem drive_init (k : Kind) (us : List V) (t : Term) :
+    drive (StageSt.init k) us t = stageTr k ⟨us, t⟩ := by
+  simp only [drive, driveIdle, StageSt.init, stageTr, Tr.prepend_nil]
+  by_cases h : k.initStopped = true <;> simp [h]
+
+theorem denoteF_init (src : Src) (k : Kind) (acc : List StageSt) (pos N : Nat) :
+    denoteF src (StageSt.init k :: acc) pos N = stageTr k (denoteF src acc pos N) := by
+  rw [denoteF_cons, drive_init]
+
+/-- priming pulls only while the chain below has not yet delivered the `n` items asked for -/
+theorem prime_sound (src : Src) (fuel : Nat) : ∀ (n : Nat) (st : StageSt) (below : List StageSt) (pos : Nat),
+    match prime src fuel n st below pos with
+    | .ok sts' pos' => pos ≤ pos' ∧
+        (∀ m, pos ≤ m → m < pos' → (denoteF src below pos m).answers n = false) ∧
+        (∀ N, pos' ≤ N → denoteF src sts' pos' N = denoteF src (st :: below) pos N)
+    | .err e pos' => pos ≤ pos' ∧
+        (∀ m, pos ≤ m → m < pos' → (denoteF src below pos m).answers n = false) ∧
+        (∀ N, pos' ≤ N → ∃ ys, ys.length < n ∧ denoteF src below pos N = ⟨ys, .err e⟩)
+    | .oof => True := by
+  intro n
+  induction n with
+  | zero =>
+    intro st below pos
+    simp only [prime]
+    exact ⟨Nat.le_refl _, fun m hm hm' => by omega, fun N _ => trivial⟩
+  | succ n ih =>
+    intro st below pos
+    simp only [prime]
+    rcases hp : st.poll with ⟨act, st'⟩
+    cases act with
+    | pull =>
+      obtain ⟨rfl, ho, he, hs⟩ := poll_pull hp
+      simp only
+      have hsd := pullFrom_sound src fuel below pos
+      rcases h1 : pullFrom src fuel below pos with ⟨r, below1, p1⟩
+      rw [h1] at hsd
+      obtain ⟨hle, hB, hA⟩ := hsd
+      cases r with
+      | item v =>
+        simp only
+        have ih1 := ih (st'.feed (some v)) below1 p1
+        have key : ∀ N, p1 ≤ N → denoteF src (st'.feed (some v) :: below1) p1 N =
+            denoteF src (st' :: below) pos N := by
+          intro N hN
+          have := hA N hN
+          simp only at this
+          simp only [denoteF_cons, this, Tr.cons]
+          exact (drive_feed_some ho he hs v _ _).symm
+        have lazy : ∀ m, pos ≤ m → m < p1 → (denoteF src below pos m).answers (n + 1) = false :=
+          fun m hm hm' => by rw [hB m hm hm']; simp
+        revert ih1
+        cases prime src fuel n (st'.feed (some v)) below1 p1 with
+        | ok sts' pos' =>
+          intro ih1
+          obtain ⟨hle2, hB2, hA2⟩ := ih1
+          refine ⟨Nat.le_trans hle hle2, ?_, ?_⟩
+          · intro m hm hm'
+            rcases Nat.lt_or_ge m p1 with hlt | hge
+            · exact lazy m hm hlt
+            · have := hA m hge
+              simp only at this
+              rw [this, answers_cons]
+              exact hB2 m hge hm'
+          · intro N hN
+            rw [hA2 N hN, key N (Nat.le_trans hle2 hN)]
+        | err e pos' =>
+          intro ih1
+          obtain ⟨hle2, hB2, hA2⟩ := ih1
+          refine ⟨Nat.le_trans hle hle2, ?_, ?_⟩
+          · intro m hm hm'
+            rcases Nat.lt_or_ge m p1 with hlt | hge
+            · exact lazy m hm hlt
+            · have := hA m hge
+              simp only at this
+              rw [this, answers_cons]
+              exact hB2 m hge hm'
+          · intro N hN
+            obtain ⟨ys, hys, hd⟩ := hA2 N hN
+            have := hA N (Nat.le_trans hle2 hN)
+            simp only at this
+            exact ⟨v :: ys, by simp; omega, by rw [this, hd]; rfl⟩
+        | oof => intro _; trivial
+      | eof =>
+        simp only
+        refine ⟨hle, fun m hm hm' => by rw [hB m hm hm']; simp, fun N hN => ?_⟩
+        have := hA N hN
+        simp only at this
+        simp only [denoteF_cons, this]
+        exact (drive_feed_none ho he hs _ _).symm
+      | err e =>
+        simp only
+        refine ⟨hle, fun m hm hm' => by rw [hB m hm hm']; simp, fun N hN => ?_⟩
+        exact ⟨[], by simp, hA N hN⟩
+      | oof => simp only
+    | emit v => exact ⟨Nat.le_refl _, fun m hm hm' => by omega, fun N _ => rfl⟩
+    | done => exact ⟨Nat.le_refl _, fun m hm hm' => by omega, fun N _ => rfl⟩
+    | fail e => exact ⟨Nat.le_refl _, fun m hm hm' => by omega, fun N _ => rfl⟩
+
+theorem pipeTr_append (a b : List Kind) (d : Tr) : pipeTr (a ++ b) d = pipeTr b (pipeTr a d) := by
+  induction a generalizing d with
+  | nil => rfl
+  | cons k a ih => simp [pipeTr, ih]
+
+theorem denoteF_nil_zero (src : Src) (N : Nat) : denoteF src [] 0 N = src.pfx N := by
+  simp [denoteF, denote]
+
+/-! ### an undetermined trace needs an undetermined input -/
+
+theorem foldCore_isMore (c : Core) (us : List V) (t : Term) :
+    (foldCore c us t).term.isMore = true → t.isMore = true := by
+  induction us generalizing c with
+  | nil => cases t <;> simp [foldCore, Term.isMore]
+  | cons u us ih =>
+    simp only [foldCore]
+    rcases c.push u with ⟨o, c', st⟩
+    cases st with
+    | go => simpa [Tr.prepend] using ih c'
+    | stop => simp [Term.isMore]
+    | fail e => simp [Term.isMore]
+
+theorem drive_isMore (s : StageSt) (us : List V) (t : Term) :
+    (drive s us t).term.isMore = true → t.isMore = true := by
+  simp only [drive, driveIdle, Tr.prepend]
+  cases s.err with
+  | some e => simp [Term.isMore]
+  | none =>
+    by_cases h : s.stopped = true
+    · simp [h, Term.isMore]
+    · simpa [h] using foldCore_isMore s.core us t
+
+theorem denote_isMore (sts : List StageSt) (us : List V) (t : Term) :
+    (denote sts us t).term.isMore = true → t.isMore = true := by
+  induction sts with
+  | nil => simp [denote]
+  | cons s rest ih => intro h; exact ih (drive_isMore _ _ _ h)
+
+theorem stageTr_isMore (k : Kind) (d : Tr) : (stageTr k d).term.isMore = true → d.term.isMore = true := by
+  simp only [stageTr]
+  by_cases h : k.initStopped = true
+  · simp [h, Term.isMore]
+  · simpa [h] using foldCore_isMore _ d.items d.term
+
+theorem pipeTr_isMore (ks : List Kind) (d : Tr) : (pipeTr ks d).term.isMore = true → d.term.isMore = true := by
+  induction ks generalizing d with
+  | nil => simp [pipeTr]
+  | cons k ks ih => intro h; exact stageTr_isMore k d (ih _ h)
+
+theorem answers_false_isMore {d : Tr} {k : Nat} (h : d.answers k = false) : d.term.isMore = true := by
+  simp only [Tr.answers, Bool.or_eq_false_iff, Bool.not_eq_false'] at h
+  exact h.2
+
+/-- a source whose first `n` items leave its end open has more than `n` items -/
+def SrcBound (src : Src) (bound : Nat) : Prop := ∀ n, (src.pfx n).term.isMore = true → n < bound
+
+theorem srcBound_fin (xs : List V) (tail : Option Err) : SrcBound (.fin xs tail) xs.length := by
+  intro n h
+  simp only [Src.pfx] at h
+  split at h
+  · cases tail <;> simp [Term.isMore] at h
+  · omega
+
+/-! ### `leastFrom` -/
+
+theorem le_leastFrom_start (p : Nat → Bool) (bound : Nat) : ∀ fuel start, start ≤ leastFrom p bound fuel start := by
+  intro fuel
+  induction fuel with
+  | zero => intro start; simp [leastFrom]
+  | succ fuel ih =>
+    intro start
+    simp only [leastFrom]
+    split
+    · exact Nat.le_refl _
+    · exact Nat.le_trans (Nat.le_succ _) (ih (start + 1))
+
+theorem le_leastFrom (p : Nat → Bool) (bound : Nat) : ∀ fuel start q, q ≤ bound →
+    (∀ m, start ≤ m → m < q → p m = false) → q - start ≤ fuel → q ≤ leastFrom p bound fuel start := by
+  intro fuel
+  induction fuel with
+  | zero => intro start q _ _ hf; simp only [leastFrom]; omega
+  | succ fuel ih =>
+    intro start q hq hp hf
+    simp only [leastFrom]
+    rcases Nat.lt_or_ge start q with hlt | hge
+    · have h1 : p start = false := hp start (Nat.le_refl _) hlt
+      have h2 : ¬ (start ≥ bound) := by omega
+      simp only [h1, Bool.or_false, decide_eq_true_eq, h2, ↓reduceIte]
+      exact ih (start + 1) q hq (fun m hm hm' => hp m (by omega) hm') (by omega)
+    · split
+      · exact hge
+      · exact Nat.le_trans hge (Nat.le_trans (Nat.le_succ _) (le_leastFrom_start p bound fuel (start + 1)))
+
+/-- the positions a lazy request pulled, against the number of items the request needs -/
+theorem pulls_le_need (p : Nat → Bool) (bound start pos q : Nat) (hpos : pos ≤ start)
+    (hb : ∀ m, pos ≤ m → m < q → m < bound)
+    (hp : ∀ m, pos ≤ m → m < q → p m = false) (hposq : pos ≤ q) :
+    q ≤ leastFrom p bound (bound + 1) start := by
+  rcases Nat.lt_or_ge start q with hlt | hge
+  · have hqb : q ≤ bound := by
+      have := hb (q - 1) (by omega) (by omega)
+      omega
+    exact le_leastFrom p bound (bound + 1) start q hqb (fun m hm hm' => hp m (by omega) hm') (by omega)
+  · exact Nat.le_trans hge (le_leastFrom_start p bound _ start)
+
+theorem le_primeScan (src : Src) (bound : Nat) : ∀ (ks before : List Kind) (p : Nat),
+    p ≤ primeScan src bound before ks p := by
+  intro ks
+  induction ks with
+  | nil => intro before p; simp [primeScan]
+  | cons k ks ih =>
+    intro before p
+    simp only [primeScan]
+    refine Nat.le_trans ?_ (ih _ _)
+    split
+    · exact Nat.le_refl _
+    · exact le_leastFrom_start _ _ _ _
+
+/-- position `m` was pulled by `glomit` because a `windowed` stage still lacked items:
+    the chain below that stage, on the first `m` source items, does not deliver `size - 1` -/
+def PrimeNeeded (src : Src) (before ks : List Kind) (m : Nat) : Prop :=
+  ∃ b k a, ks = b ++ k :: a ∧ (det (before ++ b) src m).answers k.primeCount = false
+
+theorem PrimeNeeded.cons {src : Src} {before ks : List Kind} {k : Kind} {m : Nat}
+    (h : PrimeNeeded src (before ++ [k]) ks m) : PrimeNeeded src before (k :: ks) m := by
+  obtain ⟨b, k', a, rfl, hn⟩ := h
+  exact ⟨k :: b, k', a, rfl, by simpa [List.append_assoc] using hn⟩
+
+theorem mem_primeErrs_cons {src : Src} {bound : Nat} {before ks : List Kind} {k : Kind} {e : Err}
+    (h : e ∈ primeErrs src bound (before ++ [k]) ks) : e ∈ primeErrs src bound before (k :: ks) := by
+  simp only [primeErrs, List.mem_append]; exact Or.inr h
+
+theorem construct_sound (src : Src) (fuel bound : Nat) (hb : SrcBound src bound) :
+    ∀ (ks before : List Kind) (acc : List StageSt) (pos p : Nat),
+    (∀ N, pos ≤ N → denoteF src acc pos N = det before src N) → pos ≤ p → pos ≤ bound →
+    match construct src fuel ks acc pos with
+    | .ok sts' pos' => pos ≤ pos' ∧ pos' ≤ bound ∧ pos' ≤ primeScan src bound before ks p ∧
+        (∀ m, pos ≤ m → m < pos' → PrimeNeeded src before ks m) ∧
+        ∀ N, pos' ≤ N → denoteF src sts' pos' N = det (before ++ ks) src N
+    | .err e pos' => pos ≤ pos' ∧ pos' ≤ bound ∧ pos' ≤ primeScan src bound before ks p ∧
+        (∀ m, pos ≤ m → m < pos' → PrimeNeeded src before ks m) ∧
+        e ∈ primeErrs src bound before ks
+    | .oof => True := by
+  intro ks
+  induction ks with
+  | nil =>
+    intro before acc pos p hinv hp hpb
+    simp only [construct, primeScan, List.append_nil]
+    exact ⟨Nat.le_refl _, hpb, hp, fun m hm hm' => by omega, hinv⟩
+  | cons k ks ih =>
+    intro before acc pos p hinv hp hpb
+    simp only [construct]
+    have hpr := prime_sound src fuel k.primeCount (StageSt.init k) acc pos
+    -- facts shared by the two outcomes of priming
+    have lazyAbs : ∀ pos', (∀ m, pos ≤ m → m < pos' → (denoteF src acc pos m).answers k.primeCount = false) →
+        (∀ m, pos ≤ m → m < pos' → (det before src m).answers k.primeCount = false) :=
+      fun pos' h m hm hm' => by rw [← hinv m hm]; exact h m hm hm'
+    have bnd : ∀ pos', pos ≤ pos' →
+        (∀ m, pos ≤ m → m < pos' → (det before src m).answers k.primeCount = false) → pos' ≤ bound := by
+      intro pos' hle h
+      rcases Nat.eq_or_lt_of_le hle with heq | hlt
+      · omega
+      · have h1 := h (pos' - 1) (by omega) (by omega)
+        have h2 := pipeTr_isMore before _ (answers_false_isMore h1)
+        have := hb _ h2
+        omega
+    have scan : ∀ pos', pos ≤ pos' →
+        (∀ m, pos ≤ m → m < pos' → (det before src m).answers k.primeCount = false) →
+        pos' ≤ (if k.primeCount = 0 then p else needFrom before src bound k.primeCount p) := by
+      intro pos' hle h
+      split
+      · next hc =>
+        -- nothing is primed: no position can have been pulled
+        rcases Nat.eq_or_lt_of_le hle with heq | hlt
+        · omega
+        · have := h pos (Nat.le_refl _) hlt
+          simp [hc, Tr.answers] at this
+      · exact pulls_le_need _ bound p pos pos' hp
+          (fun m hm hm' => hb _ (pipeTr_isMore before _ (answers_false_isMore (h m hm hm')))) h hle
+    revert hpr
+    cases hprime : prime src fuel k.primeCount (StageSt.init k) acc pos with
+    | ok acc' p1 =>
+      intro hpr
+      obtain ⟨hle, hB, hA⟩ := hpr
+      have hBabs := lazyAbs p1 hB
+      have hinv' : ∀ N, p1 ≤ N → denoteF src acc' p1 N = det (before ++ [k]) src N := by
+        intro N hN
+        rw [hA N hN, denoteF_init, hinv N (Nat.le_trans hle hN)]
+        simp [det, pipeTr_append, pipeTr]
+      have := ih (before ++ [k]) acc' p1
+        (if k.primeCount = 0 then p else needFrom before src bound k.primeCount p) hinv'
+        (scan p1 hle hBabs) (bnd p1 hle hBabs)
+      simp only [primeScan]
+      revert this
+      cases construct src fuel ks acc' p1 with
+      | ok sts' pos' =>
+        intro this
+        obtain ⟨hle2, hb2, hs2, hl2, hA2⟩ := this
+        refine ⟨Nat.le_trans hle hle2, hb2, hs2, ?_, ?_⟩
+        · intro m hm hm'
+          rcases Nat.lt_or_ge m p1 with hlt | hge
+          · exact ⟨[], k, ks, rfl, by simpa using hBabs m hm hlt⟩
+          · exact (hl2 m hge hm').cons
+        · intro N hN
+          rw [hA2 N hN]; simp [List.append_assoc]
+      | err e pos' =>
+        intro this
+        obtain ⟨hle2, hb2, hs2, hl2, he2⟩ := this
+        refine ⟨Nat.le_trans hle hle2, hb2, hs2, ?_, mem_primeErrs_cons he2⟩
+        intro m hm hm'
+        rcases Nat.lt_or_ge m p1 with hlt | hge
+        · exact ⟨[], k, ks, rfl, by simpa using hBabs m hm hlt⟩
+        · exact (hl2 m hge hm').cons
+      | oof => intro _; trivial
+    | err e p1 =>
+      intro hpr
+      obtain ⟨hle, hB, hA⟩ := hpr
+      have hBabs := lazyAbs p1 hB
+      have hp1b := bnd p1 hle hBabs
+      simp only [primeScan]
+      refine ⟨hle, hp1b, Nat.le_trans (scan p1 hle hBabs) (le_primeScan _ _ _ _ _), ?_, ?_⟩
+      · intro m hm hm'
+        exact ⟨[], k, ks, rfl, by simpa using hBabs m hm hm'⟩
+      · obtain ⟨ys, hys, hd⟩ := hA bound hp1b
+        rw [hinv bound (Nat.le_trans hle hp1b)] at hd
+        simp [primeErrs, hd, hys]
+    | oof => intro _; trivial
+
+
+/-! ### `it = glom(target, spec); list(islice(it, k))` -/
+
+/-- the observable outcome of a `take k` run against the trace of the pipeline at horizon `N` -/
+def TraceOK (kinds : List Kind) (src : Src) (k : Nat) (out : RunOut) : Prop :=
+  ∀ N, out.pulls ≤ N →
+    match out.fin with
+    | .gotK => out.items.length = k ∧ ∃ rest : Tr, det kinds src N = rest.prepend out.items
+    | .exhausted => out.items.length < k ∧ det kinds src N = ⟨out.items, .eof⟩
+    | .raised e => out.items.length < k ∧ det kinds src N = ⟨out.items, .err e⟩
+    | .oof => True
+
+structure TakeSpec (kinds : List Kind) (src : Src) (k bound : Nat) (out : RunOut) : Prop where
+  pulls_le : out.pulls ≤ bound
+  /-- every source position pulled was needed: by a window being primed, or because the
+      shorter prefix does not determine `k` outputs nor the end of the stream -/
+  needed : ∀ m, m < out.pulls → PrimeNeeded src [] kinds m ∨ (det kinds src m).answers k = false
+  result : (TraceOK kinds src k out ∧ out.pulls ≤ needFrom kinds src bound k (primeNeed kinds src bound)) ∨
+    (out.items = [] ∧ out.pulls ≤ primeNeed kinds src bound ∧
+      ∃ e, out.fin = .raised e ∧ e ∈ primeErrs src bound [] kinds)
+
+theorem runTake_spec (src : Src) (fuel bound : Nat) (hb : SrcBound src bound) (kinds : List Kind) (k : Nat)
+    (hfin : (runTake kinds src fuel k).fin ≠ .oof) : TakeSpec kinds src k bound (runTake kinds src fuel k) := by
+  have hc := construct_sound src fuel bound hb kinds [] [] 0 0
+    (fun N _ => by rw [denoteF_nil_zero]; rfl) (Nat.le_refl _) (Nat.zero_le _)
+  unfold runTake at hfin ⊢
+  revert hc hfin
+  cases construct src fuel kinds [] 0 with
+  | ok sts pos =>
+    intro hfin hc
+    simp only at hfin ⊢
+    simp only [List.nil_append] at hc
+    obtain ⟨_, hpb, hscan, hprime, hden⟩ := hc
+    obtain ⟨hle, hB, ys, hys, hA⟩ := takeK_sound src fuel k sts pos []
+    simp only [List.nil_append] at hys
+    have hBabs : ∀ m, pos ≤ m → m < (takeK src fuel k sts pos []).1.pulls →
+        (det kinds src m).answers k = false := fun m hm hm' => by rw [← hden m hm]; exact hB m hm hm'
+    have hmb : ∀ m, pos ≤ m → m < (takeK src fuel k sts pos []).1.pulls → m < bound :=
+      fun m hm hm' => hb _ (pipeTr_isMore kinds _ (answers_false_isMore (hBabs m hm hm')))
+    refine ⟨?_, ?_, Or.inl ⟨?_, ?_⟩⟩
+    · rcases Nat.eq_or_lt_of_le hle with heq | hlt
+      · omega
+      · have := hmb ((takeK src fuel k sts pos []).1.pulls - 1) (by omega) (by omega); omega
+    · intro m hm
+      rcases Nat.lt_or_ge m pos with hlt | hge
+      · exact Or.inl (hprime m (Nat.zero_le _) hlt)
+      · exact Or.inr (hBabs m hge hm)
+    · intro N hN
+      have h := hA N hN
+      rw [hden N (Nat.le_trans hle hN)] at h
+      revert h hfin
+      rw [hys]
+      cases (takeK src fuel k sts pos []).1.fin with
+      | gotK => intro _ h; exact ⟨h.1, _, h.2⟩
+      | exhausted => intro _ h; exact h
+      | raised e => intro _ h; exact h
+      | oof => intro h; exact absurd rfl h
+    · exact pulls_le_need _ bound _ pos _ hscan hmb hBabs hle
+  | err e pos =>
+    intro _ hc
+    simp only at hc
+    obtain ⟨_, hpb, hscan, hprime, he⟩ := hc
+    exact ⟨hpb, fun m hm => Or.inl (hprime m (Nat.zero_le _) hm), Or.inr ⟨rfl, hscan, e, rfl, he⟩⟩
+  | oof => intro hfin _; exact absurd rfl hfin
+
+mutual
+theorem V.beq_refl : ∀ v : V, V.beq v v = true
+  | .none => by simp [V.beq]
+  | .int i => by simp [V.beq]
+  | .list xs => by simp [V.beq, V.beqL_refl xs]
+  | .tup xs => by simp [V.beq, V.beqL_refl xs]
+theorem V.beqL_refl : ∀ xs : List V, V.beqL xs xs = true
+  | [] => by simp [V.beqL]
+  | x :: xs => by simp [V.beqL, V.beq_refl x, V.beqL_refl xs]
+end
+instance : ReflBEq V := ⟨fun {a} => V.beq_refl a⟩
+
+theorem checkTake_of_spec (kinds : List Kind) (xs : List V) (tail : Option Err) (k : Nat) (out : RunOut)
+    (hfin : out.fin ≠ .oof) (h : TakeSpec kinds (.fin xs tail) k xs.length out) :
+    checkTake kinds (.fin xs tail) k ⟨out.items, out.fin, out.pulls⟩ = true := by
+  unfold checkTake
+  simp only [srcLen]
+  rcases h.result with ⟨htr, hneed⟩ | ⟨hnil, hpn, e, hfe, hmem⟩
+  · have ht := htr xs.length h.pulls_le
+    apply Bool.or_eq_true_iff.mpr; left
+    revert ht hfin
+    cases out.fin with
+    | gotK =>
+      intro _ ht
+      obtain ⟨hlen, rest, hrest⟩ := ht
+      simp [hrest, Tr.prepend, hlen, hneed]
+    | exhausted =>
+      intro _ ht
+      obtain ⟨hlen, hd⟩ := ht
+      have : ¬ (k ≤ out.items.length) := by omega
+      simp [hd, finOfTerm, hneed, this, List.take_of_length_le (Nat.le_of_lt hlen)]
+    | raised e =>
+      intro _ ht
+      obtain ⟨hlen, hd⟩ := ht
+      have : ¬ (k ≤ out.items.length) := by omega
+      simp [hd, finOfTerm, hneed, this, List.take_of_length_le (Nat.le_of_lt hlen)]
+    | oof => intro h; exact absurd rfl h
+  · apply Bool.or_eq_true_iff.mpr; right
+    simp [hnil, hfe, hpn, hmem]
+
 end Glom.C17
